@@ -33,3 +33,18 @@ package nsx
 //vc:      (forall j int :: 0 <= j && j < len(old(n2.Services)) ==> n1.Services[len(old(n1.Services)) + j] == old(n2.Services[j]))
 //vc:  invariant[C18] 1 "for _, p2 := range n2.Policies" len(n1.Policies) >= len(old(n1.Policies)) && (forall j int :: 0 <= j && j < len(old(n1.Policies)) ==> n1.Policies[j] == old(n1.Policies[j]))
 //vc:  ensures[C18] @existingPoliciesKeptInPlace len(n1.Policies) >= len(old(n1.Policies)) && (forall j int :: 0 <= j && j < len(old(n1.Policies)) ==> n1.Policies[j] == old(n1.Policies[j]))
+
+// ---- C17: the NSX login form is logged with the password replaced ----
+//vc:func (*State).LoadDevice$1
+//vc:  inline
+//vc:  hypothesis[C17] secretFree(name) && secretFree(ip) && secretFree(user)
+//vc:  assume at "v.Set("#1 valsState[arg0] == 0
+//vc:  assume at "errlog.DoLog(logLogin, "#1 secretFree(s.prefix)
+//vc:  ensures[C17] @loginErrorClean result != nil ==> cleanAny(result)
+// device data (configuration, replies) and the planned requests carry no login secret
+//vc:func (*State).LoadDevice
+//vc:  assume at "errlog.DoLog(logConfig, string(out))" secretFree(arg1)
+//vc:func (*State).ApplyCommands
+//vc:  assume at "errlog.DoLog(logFh, fmt.Sprintf("#1 secretFree(c.method) && secretFree(c.url)
+//vc:  assume at "errlog.DoLog(logFh, "#2 secretFree(bytes(c.postData))
+//vc:  assume at "errlog.DoLog(logFh, "#3 secretFree(bytes(resp))
